@@ -230,6 +230,13 @@ func checkC08(c *mc.Ctx) {
 	one := EncodePkts(Packetize(PSIUnit(0, 0, [][]byte{SecPAT(modelPAT(1, 0x1000), ref.SecHdr{CNI: true})}, nil), nil, new(uint8), true))
 	two := append(append([]byte{}, one...), EncodePkts(Packetize(PESUnit(0x100, 0xe0, pesPayload(81, 100, c.Seed), 1, false), nil, new(uint8), false))...)
 	streams = append(streams, &Stream{Name: "single-packet", Bytes: one}, &Stream{Name: "two-packets", Bytes: two}, PayloadLengthSweepStream(c.Seed))
+	// packets without a payload (adaptation field only: a clock reference and stuffing, every variable-length part):
+	// how much of a packet is adaptation field does not depend on the size of the packet on the wire either
+	for _, st := range c19StreamsT(c.Seed, false) {
+		if st.Name == "af-variety" {
+			streams = append(streams, st)
+		}
+	}
 	var cfgs []c08Cfg
 	for _, kind := range []string{"bytes", "bufio", "plain", "seek", "seekoff", "bytesoff", "section", "bufio16", "bufio64", "bufio192", "bufio193", "bufio200", "plain+eof", "seek+eof", "bufio16+eof"} {
 		for _, k := range []int{0, 1, 2, 3, 4, 16} {
